@@ -2,7 +2,9 @@ package udprelay
 
 import (
 	"fmt"
+	"sort"
 	"strings"
+	"sync"
 	"time"
 
 	"verifsim/props/util"
@@ -50,6 +52,40 @@ func (r *run) lifecycle() {
 		slack := time.Second
 		if r.faulty {
 			slack = 3 * time.Second
+		}
+		// Peers that keep talking although their client has gone silent: what they send does not
+		// count as client traffic, the session is due all the same.
+		if len(r.chat) > 0 && s.GenChance(80) {
+			s.Probe("c12.chatty-remote")
+			s.Fault("udp.unsolicited-downlink")
+			quiet := false
+			var cwg sync.WaitGroup
+			cwg.Add(1)
+			keys := make([][2]int, 0, len(r.chat))
+			for k := range r.chat {
+				keys = append(keys, k)
+			}
+			sort.Slice(keys, func(i, j int) bool {
+				return keys[i][0] < keys[j][0] || keys[i][0] == keys[j][0] && keys[i][1] < keys[j][1]
+			})
+			s.Go("chatty-remote", func() {
+				defer cwg.Done()
+				for !quiet && !s.Failed() {
+					s.Sleep(r.natTimeout / 4)
+					for _, k := range keys {
+						r.chat[k]()
+					}
+					// the silent clients still read what arrives (a datagram left in the socket
+					// queue for a minute would be refused as stale by the client's own replay rules)
+					s.Sleep(100 * time.Millisecond)
+					if !quiet {
+						for _, se := range r.sess {
+							r.drain(se, 0)
+						}
+					}
+				}
+			})
+			defer func() { quiet = true; cwg.Wait() }()
 		}
 		// shortly before the timeout the sessions may still be there
 		s.Sleep(time.Until(last.Add(r.natTimeout - time.Second)))
@@ -115,7 +151,7 @@ func (r *run) lifecycle() {
 						r.fail("no-restart-after-eviction", "session %d sent %d datagram(s) after its NAT entry had been evicted but none reached its destination on a network that lost nothing", se.idx, sentNew)
 						return
 					}
-					if answered > 0 && got == 0 {
+					if answered > 0 && got == 0 && !se.clientRefusedSession {
 						r.fail("no-restart-after-eviction", "session %d: %d datagram(s) sent after the eviction were answered by their destination but no reply came back on a network that lost nothing", se.idx, answered)
 						return
 					}
